@@ -562,7 +562,19 @@ pub fn c16_probe(hid: Hid, ty: &str, trigger_drop: bool) -> Vec<Viol> {
                     let mk = || vh::lmots_generate_private_key::<H>([0x3cu8; 16], 3u32.to_be_bytes(), mk_seed(), hbs_lms::LmotsAlgorithm::LmotsW8.construct_parameter::<H>().unwrap());
                     let a = wipe_probe(mk, &x0, trigger_drop);
                     let b = wipe_probe(mk, &x5, trigger_drop);
-                    (a.0 && b.0, a.1.or(b.1))
+                    // seed-derived hash output beyond the n bytes in use (the untruncated block the hasher
+                    // produced) must not survive either, wherever the value keeps it
+                    let t0 = crate::refmodel::hash32(hid, &[&[0x3cu8; 16], &3u32.to_be_bytes(), &0u16.to_be_bytes(), &[0xff], &secret]);
+                    let t5 = crate::refmodel::hash32(hid, &[&[0x3cu8; 16], &3u32.to_be_bytes(), &5u16.to_be_bytes(), &[0xff], &secret]);
+                    let mut tail = None;
+                    if n < 32 {
+                        for t in [&t0, &t5] {
+                            let r = wipe_probe(mk, &t[n..], trigger_drop);
+                            // (not required to be present before: SHA-256 variants copy only n bytes)
+                            tail = tail.or(r.1);
+                        }
+                    }
+                    (a.0 && b.0, a.1.or(b.1).or(tail))
                 }
                 _ => return Err(()),
             })
